@@ -9,7 +9,8 @@ p-ulp, p, p+ulp, 2.5p, 1000p, an arbitrary factor, or *backwards* by one ulp / p
 clock moves while a coroutine invocation is in flight, stop() inside the callback / while the
 coroutine is running / between runs / from a *separate timer or add_callback due at exactly the same
 virtual instant as the periodic deadline* (registered before or after the periodic timer, so stop() lands
-before the handle fires or between the handle firing and _run's first step), and start() again.  Runs on the virtual loop; the observation is
+before the handle fires or between the handle firing and _run's first step), and start() again - either well after the old chain's next deadline or *soon* (0.3 P later, before it), always
+after the stopped invocation has completed.  Runs on the virtual loop; the observation is
 every deadline PeriodicCallback passes to ``io_loop.add_timeout`` (wrapped on the harness-owned loop
 instance) together with ``io_loop.time()`` at that moment, and the callback start/end trace.
 
@@ -23,6 +24,7 @@ Oracle (exact rationals, fractions.Fraction of the same floats; P = period in se
   run_time  a callback start is never before the most recently scheduled deadline (minus tol)
   overlap   a callback never starts while the previous (coroutine) invocation is in flight
   stop      no callback start after stop() returned, whatever is still pending
+  one_timer at most one timer of the PeriodicCallback is armed (scheduled, not cancelled, not fired) at any time
 Excluded (not generated): start() while a coroutine invocation is still in flight, while a fired-but-not-yet-
 started _run is pending (same-instant stop()+start() restarts only when the timer had not fired yet), or without a
 preceding stop() (two timers are armed; the statement speaks about stop orderings only).
@@ -38,6 +40,12 @@ Sensitivity (quick tier, seed 1, one textual mutation at a time on a scratch cop
     same-instant stop was added: a separate timer / add_callback at exactly the periodic deadline calls stop() after the
     loop has fired the periodic handle (remove_timeout is then a no-op) but before _run's first step.  (Earlier version
     of this check missed it and wrongly called the mutant equivalent.)
+  * `_schedule_next` without its `if self._running` guard (a stop() during a run leaves a stale armed timer that
+    `_run`'s own guard normally swallows)                                         -> caught at seeds 1-3 (C39.two_timers_armed;
+    also run_before_scheduled_time / bunched_runs) since the "_soon" restarts were added: stop() inside the callback /
+    while the coroutine runs / from a same-instant timer, the invocation COMPLETES, then start() 0.3 P later, i.e.
+    before the old chain's next deadline.  Earlier version: missed (it always idled 3.5 P before restarting, so the
+    stale timer had fired and been swallowed).
   * jitter one-sided: `1 + jitter * random()`                                   -> caught (C39.more_than_one_period_ahead)
   * no skipping: always `_next_timeout += period`                               -> caught (C39.before_current_time)
   * measured from now: `_next_timeout = now + period`                           -> caught (C39.off_grid)
@@ -112,6 +120,7 @@ class Rec:
         self.gate = None
         self.runaway = False
         self.dispatch_pending = False
+        self.armed = []
 
     def fail(self, clause, detail):
         self.failures.append((clause, detail))
@@ -170,14 +179,27 @@ async def _scn(case, rec):
             return orig_add(io.time() + 1e12, lambda: None)
         same = act_for(len(rec.starts))[6]  # action of the run this deadline is for
 
+        slot = {"h": None, "fired": False}
+
         def dispatched():
             # the loop has fired the periodic timer; PeriodicCallback._run is a coroutine whose first step
             # only executes on the next loop iteration
             rec.dispatch_pending = True
+            slot["fired"] = True
             return callback()
 
+        def armed(h):
+            # at most one timer of the PeriodicCallback may be armed (scheduled, not cancelled, not fired) at any time
+            slot["h"] = h
+            rec.armed.append(slot)
+            live = [x for x in rec.armed if not x["fired"] and not x["h"].cancelled()]
+            rec.armed[:] = live
+            if len(live) > 1:
+                rec.fail("C39.two_timers_armed", {"now": io.time(), "deadline": deadline, "armed": len(live)})
+            return h
+
         if same == "none":
-            return orig_add(deadline, dispatched, *a, **kw)
+            return armed(orig_add(deadline, dispatched, *a, **kw))
         epoch = rec.epoch
         restart = same.endswith("_start")
 
@@ -202,8 +224,8 @@ async def _scn(case, rec):
         other = helper if same.startswith("cb_") else stopper
         if "_before" in same:
             orig_add(deadline, other)  # same deadline, same conversion => identical asyncio `when`
-            return orig_add(deadline, dispatched, *a, **kw)
-        h = orig_add(deadline, dispatched, *a, **kw)
+            return armed(orig_add(deadline, dispatched, *a, **kw))
+        h = armed(orig_add(deadline, dispatched, *a, **kw))
         orig_add(deadline, other)
         return h
 
@@ -317,15 +339,23 @@ async def _scn(case, rec):
                     await vtime.settle()
                 rec.gate.set_result(None)
                 await vtime.settle()
-            if post in ("stop", "stop_start") or (rec.stopped and post == "start"):
+            if post in ("stop", "stop_start", "stop_start_soon") or (rec.stopped and post in ("start", "start_soon")):
+                was_stopped_during_run = rec.stopped
                 if not rec.stopped:
                     stop()
                     rec.labels.add("stop_between_runs")
-                loop._now += 3.5 * p
+                # "_soon": start() again at a later instant that is still BEFORE the deadline the stopped chain
+                # would have had next (any timer it left armed has not fired yet); otherwise idle well past it
+                soon = post.endswith("_soon")
+                loop._now += (0.3 if soon else 3.5) * p
                 await vtime.settle()
-                if post in ("stop_start", "start") and not rec.inflight:
+                if post != "stop" and not rec.inflight:
                     rec.epoch += 1
                     rec.labels.add("restart")
+                    if soon:
+                        rec.labels.add("restart_before_old_deadline")
+                        if was_stopped_during_run:
+                            rec.labels.add("stop_during_run_then_restart_soon")
                     start()
     finally:
         if not rec.stopped:
@@ -433,7 +463,8 @@ DELAY = st.one_of(st.sampled_from(DELAY_POOL), st.sampled_from(DELAY_POOL), st.s
                   st.tuples(st.just("f"), st.floats(0, 3, allow_nan=False)))
 PRE = st.sampled_from(["none", "none", "none", "none", "late0.3", "late1", "late2.5", "late1000", "backwait"])
 CHUNKS = st.sampled_from([(), (), ("0.3",), ("p",), ("p+ulp",), ("2.5",), ("1000",), ("0.3", "p+ulp"), ("p", "p", "p"), ("2.5", "0.3")])
-POST = st.sampled_from(["none"] * 12 + ["stop", "stop_start", "stop_start", "start", "start", "start"])
+POST = st.sampled_from(["none"] * 12 + ["stop", "stop_start", "stop_start", "start", "start", "start",
+                                        "start_soon", "start_soon", "start_soon", "stop_start_soon", "stop_start_soon"])
 # (pre, delay, stop_inside, chunks, stop_while_running, post, same); post "start" restarts only if the callback is stopped by then
 # same-instant stop: a separate timer registered for exactly the periodic deadline (before / after the periodic
 # timer), either stopping directly ("t_") or through an add_callback queued in that iteration ("cb_"); "_start" = stop()+start()
